@@ -21,10 +21,11 @@ BASES = [
     "http://example.com/a%20b/c%2Fd.txt", "http://example.com/é/ü.x", "//example.com/a", "/a/b", "/a/b/", "a/b", "a", "",
     "/", "?q=1", "#f", "mailto:user@example.com", "file:///etc/passwd", "x:a/b", "http://example.com/?a=1&b=2&a=3#f",
     "http://u@example.com/a.b.c", "http://:p@example.com/.hidden", "http://bücher.example/straße", "ws://h:0/",
-    "http://[fe80::1%25eth0]:80/", "http://1.2.3.4/a/", "http://example.com./a", "http://example.com/a;p=1/b;q",
+    "http://[fe80::1%25eth0]:80/", "http://1.2.3.4/a/", "http://example.com./a", "http://example.com/a;p=1/b;q", "http://EXAMPLE.Com:8080/Path", "http://U:P@[2001:DB8::1]:80/",
     "http://example.com/%2E%2E/x", "http://example.com/a+b%2Bc?d+e=%2B", "http://h/a?", "http://h/a/..", "svn+ssh://h/r",
     "http://h/a%2Fb", "http://h/a%25b/c%2Fd", "http://h/a%2fb", "http://alice:pw@v2.example.com:8080/p", "http://u@vad.example.org/",
-    "http://example.com:443/x", "ws://u@example.com:443/", "https://example.com:80/", "foo://user:pw@:8080/path", "//user@/path", "http://example.com.:8080/path", "http://[fe80::1%25Ethernet%202]:8080/x",
+    "http://example.com:443/x", "ws://u@example.com:443/", "https://example.com:80/", "foo://user:pw@:8080/path", "//user@/path",
+    "http://example.com/a/..x", "/a/...x.y", "http://h/..a.b", "http://example.com.:80/p", "http://example.com/x", "https://example.com/", "http://example.com.:8080/path", "http://[fe80::1%25Ethernet%202]:8080/x",
 ]
 
 
@@ -47,6 +48,14 @@ def opt_text(rnd, none_p=0.15, **kw):
     return [] if rnd.random() < none_p else [T(text(rnd, **kw))]
 
 
+class SubList(list):
+    """a proper subclass of list (a mapping value of such a type expands to repeated keys like a list)"""
+
+
+class SubTuple(tuple):
+    """a proper subclass of tuple (namedtuple, struct_time, ... are such)"""
+
+
 TYPED = False
 IPVFUTURE = False     # bases with an IPvFuture host (known finding bracketed-non-ipv6) only where asked for
 
@@ -57,6 +66,14 @@ def rnd_base(rnd, encoded_p=0.0, surrogate_p=0.0):
         s = rnd.choice(BASES)
     else:
         s = grid.sample(rnd, ipvfuture=IPVFUTURE)
+    if encoded_p and rnd.random() < 0.1:
+        # the third verbatim route: URL(SplitResult(...), encoded=True) with the five parts as urlsplit() cuts them
+        from urllib.parse import urlsplit
+        try:
+            sp = urlsplit(s)
+            return {"op": "split", "val": [T(sp.scheme), T(sp.netloc), T(sp.path), T(sp.query), T(sp.fragment)]}
+        except ValueError:
+            pass
     if surrogate_p and rnd.random() < surrogate_p:     # a lone surrogate somewhere in the URL text itself
         i = rnd.randrange(len(s) + 1)
         s = s[:i] + rnd.choice(SURR) + s[i:]
@@ -109,7 +126,7 @@ def rnd_qarg(rnd, forms=("str", "mapping", "multidict", "pairs", "tuplepairs", "
             k = "k"
         if typed and rnd.random() < 0.4:
             v = rnd.choice([0, -1, 10 ** 9, 1.5, 1e100, 1e16, -2.5e20, 1e-7, float("nan"), float("inf"), float("-inf"), True, False, None, b"x", -0.0, 0.0, 0, -0.0, 0.0,
-                            [1, "x"], ["a", "b"], (), [], (1.5, 2)])
+                            [1, "x"], ["a", "b"], (), [], (1.5, 2), SubList(["s", "t"]), SubTuple(("u", 2))])
         elif f in ("mapping", "multidict") and rnd.random() < 0.2:
             v = [text(rnd, 1), text(rnd, 1)]
         else:
